@@ -28,6 +28,49 @@ def _is_source_value(e):
     return False
 
 
+SKIP_OK = {
+    "*": {"_annotations": "copied afterwards by deep_copy_annotations_from, which re-targets bound attributes"},
+    DM + "taxonmodel.TaxonNamespace.__init__": {"_taxa": "rebuilt taxon by taxon, in order, from the source list"},
+    DM + "taxonmodel.TaxonNamespace.__deepcopy__": {"_taxa": "rebuilt taxon by taxon, in order, from the source list"},
+}
+
+
+def copy_skip_rule(index, rep, rid):
+    """The attribute loop of a copy routine copies EVERY attribute except the ones listed (with the reason) in SKIP_OK:
+    an attribute left out of the loop is re-created by the constructor instead of copied - e.g. the accession
+    index tables of a namespace would restart at 0 and no longer agree with the source's bits."""
+    n = 0
+    for m in COPY_MODULES:
+        for f in index.functions_in_module(m):
+            if not (f.name in COPY_NAMES or f.qualname in COPY_BRANCH_INITS):
+                continue
+            for loop in walk_no_nested(f.node):
+                if not (isinstance(loop, ast.For) and norm(loop.iter).endswith(".__dict__") and isinstance(loop.target, ast.Name)):
+                    continue
+                k = loop.target.id
+                keys = set()
+                for t in ast.walk(loop):
+                    if isinstance(t, ast.Compare) and len(t.ops) == 1 and (norm(t.left) == k or norm(t.comparators[0]) == k):
+                        other = t.comparators[0] if norm(t.left) == k else t.left
+                        if isinstance(other, ast.Name):
+                            defs = [a.value for a in walk_no_nested(f.node) if isinstance(a, ast.Assign) and norm(a.targets[0]) == other.id]
+                            other = defs[0] if len(defs) == 1 else other
+                        if isinstance(other, ast.Constant) and isinstance(other.value, str):
+                            keys.add(other.value)
+                        elif isinstance(other, (ast.Tuple, ast.List, ast.Set)) and all(isinstance(e, ast.Constant) for e in other.elts):
+                            keys |= {e.value for e in other.elts}
+                        elif isinstance(t.ops[0], (ast.In, ast.NotIn)) and (norm(other).endswith(".__dict__")):
+                            continue        # `k in other.__dict__`: already set on the copy
+                        else:
+                            keys.add("<%s>" % norm(other)[:30])
+                n += 1
+                allowed = set(SKIP_OK["*"]) | set(SKIP_OK.get(f.qualname, {}))
+                extra = sorted(keys - allowed)
+                rep.check(not extra, rid, f.qualname, "attribute loop leaves out %s" % extra, fn_where(f, loop), "%s: the attribute loop leaves out only %s" % (f.qualname, sorted(keys) or "nothing"),
+                          "%s skips the attribute(s) %s in its copy loop: they are then whatever the constructor / earlier statements produced instead of a copy of the source's (for a namespace: accession indices restarting at 0, so the copy's taxa no longer carry the bits of their originals once a taxon had been removed)" % (f.qualname, extra))
+    return n
+
+
 def shared_mutable_rule(index, rep, rid, modules):
     """no mutable default argument and no class-level mutable container mutated through instances"""
     ndef = 0
@@ -189,6 +232,10 @@ def run(index, rep, tier):
                             kinds.append("require_taxon(label)" if src and isinstance(src[0].value, ast.Call) and call_name(src[0].value) == "require_taxon" else "other:" + norm(x.value))
             rep.check(sorted(kinds) == ["itself", "require_taxon(label)"], "R12.2", g.qualname, "taxon mapping kinds %s" % sorted(kinds), fn_where(g), "same namespace: taxon -> itself; other namespace: taxon -> require_taxon(label)", "%s maps source taxa to %s" % (g.qualname, sorted(kinds)))
 
+    # ---- R12.1 copy loops leave nothing out
+    with rep.section("R12.1 copy loops"):
+        rep.floor("R12.1", "attribute loops in copy routines", 5, copy_skip_rule(index, rep, "R12.1"))
+
     # ---- R12.5: the three copy constructors perform the same state updates
     with rep.section("R12.5: the three copy constructors perform the same state updates"):
         rep.rule("R12.5", "clone agreement: Tree/TreeList/CharacterMatrix._clone_from perform the same state updates on self and the memo (they are textual copies of one routine; a change to one that is not made to the others is a divergence)")
@@ -285,6 +332,15 @@ def run(index, rep, tier):
                     if not carried:
                         if any(norm(c.func) == "copy.deepcopy" for c in ast.walk(val) if isinstance(c, ast.Call)):
                             rep.ob("R12.7", fn_where(f, a), "%s: `%s` stores a deep copy" % (f.qualname, norm_stmt(a)[:60]), True)
+                        elif isinstance(tgt, ast.Attribute) and isinstance(tgt.value, ast.Name) and tgt.value.id in newobj:
+                            # a named attribute of the copy set explicitly: an empty container filled with deep copies, or nothing else
+                            empty = (isinstance(val, (ast.List, ast.Dict, ast.Set)) and not getattr(val, "elts", getattr(val, "keys", None))) or \
+                                (isinstance(val, ast.Call) and isinstance(val.func, ast.Name) and val.func.id in ("list", "dict", "set") and not val.args)
+                            filled = any(isinstance(c, ast.Call) and isinstance(c.func, ast.Attribute) and c.func.attr in ("append", "add", "extend", "update", "__setitem__") and norm(c.func.value) == norm(tgt)
+                                         and any(isinstance(x, ast.Call) and norm(x.func) == "copy.deepcopy" for x in ast.walk(c)) for c in calls_in(f.node))
+                            rep.check(empty and filled, "R12.7", f.qualname, "attribute of the copy rebuilt instead of copied: %s" % norm_stmt(a)[:60], fn_where(f, a),
+                                      "%s: `%s` is an empty container that is then filled with deep copies" % (f.qualname, norm_stmt(a)[:50]),
+                                      "%s sets `%s` on the copy to something that is not a deep copy of the source's attribute (nor an empty container filled with deep copies): the copy's state is rebuilt or dropped rather than copied - e.g. accession indices renumbered from 0, so after a removal the copy's taxa no longer carry the bits of their originals and bipartition bitmasks copied with a tree name other taxa" % (f.qualname, norm_stmt(a)[:70]))
                         continue
                     ncarry += 1
                     cfg = cfg or cfg_of(f)
